@@ -88,28 +88,6 @@ def dirtyAfter : Sql → Bool → Bool
 
 /-! ### invariants, written as functions of the fields they depend on (so that `simp` normalises them after updates) -/
 
-/-- where a thread is in the lock protocol of `SQLiteProvider.acquire_lock` / `release_lock` -/
-inductive Phase
-  | idle      -- holds nothing
-  | hasPre    -- holds pre_transaction_lock, is about to take transaction_lock
-  | hasBoth   -- holds both, is about to release pre_transaction_lock
-  | hasTx     -- holds transaction_lock
-  deriving DecidableEq, Repr
-
-def Phase.step : Phase → LEv → Option Phase
-  | .idle, .preAcq => some .hasPre
-  | .hasPre, .acq => some .hasBoth
-  | .hasBoth, .preRel => some .hasTx
-  | .hasTx, .rel => some .idle
-  | _, _ => none
-
-/-- the phase reached by a chronological list of lock events (`none`: the protocol was violated) -/
-def Phase.run : Phase → List LEv → Option Phase
-  | ph, [] => some ph
-  | ph, e :: es => match ph.step e with
-    | some ph' => Phase.run ph' es
-    | none => none
-
 /-- lock bookkeeping recomputed from the recorded events (newest first) -/
 def lockState : List Ev → Option Phase
   | [] => some .idle
